@@ -1,14 +1,18 @@
 package c18
 
 import (
+	"bufio"
 	"bytes"
 	"context"
 	"crypto/tls"
 	"crypto/x509"
 	"errors"
 	"fmt"
+	"io"
 	"net"
+	"net/http"
 	"os"
+	"strings"
 	"time"
 
 	"github.com/go-openapi/runtime/client"
@@ -70,6 +74,12 @@ func (w *worker) startServer(kind string) error {
 				rec.version = st.Version
 				for _, pc := range st.PeerCertificates {
 					rec.peer = append(rec.peer, pc.Raw)
+				}
+				// a client that speaks HTTP over the connection (the *http.Client of TLSClient) gets one minimal
+				// answer; tls.Dial clients have closed by now and the read ends at once
+				if req, rerr := http.ReadRequest(bufio.NewReader(tc)); rerr == nil {
+					_, _ = io.WriteString(tc, "HTTP/1.1 204 No Content\r\nConnection: close\r\n\r\n")
+					_ = req.Body.Close()
 				}
 			}
 			_ = tc.Close()
@@ -136,11 +146,47 @@ func (w *worker) dial(s *server, cfg *tls.Config) (ok bool, cerr error, st tls.C
 	}
 }
 
+// get runs one HTTPS GET through an *http.Client (as returned by TLSClient) against a listener; the
+// outcome has the same shape as dial's.
+func (w *worker) get(s *server, hc *http.Client) (ok bool, cerr error, st tls.ConnectionState, rec *hsRecord, watchdog bool) {
+	ctx, cancel := context.WithTimeout(context.Background(), hsWatchdog)
+	defer cancel()
+	req, err := http.NewRequestWithContext(ctx, http.MethodGet, "https://"+s.addr+"/", nil)
+	if err != nil {
+		return false, err, st, nil, true
+	}
+	resp, err := hc.Do(req)
+	if err == nil {
+		if resp.TLS != nil {
+			st = *resp.TLS
+		}
+		_, _ = io.Copy(io.Discard, resp.Body)
+		_ = resp.Body.Close()
+		ok = true
+	} else {
+		cerr = err
+		var oe *net.OpError
+		if errors.As(err, &oe) && oe.Op == "dial" {
+			return false, err, st, nil, true
+		}
+	}
+	hc.CloseIdleConnections()
+	select {
+	case r := <-s.recs:
+		return ok, cerr, st, &r, false
+	case <-time.After(hsWatchdog):
+		_ = s.ln.Close()
+		_ = w.startServer(s.kind)
+		return ok, cerr, st, nil, true
+	}
+}
+
 // handshake runs a real handshake for the point against one listener, judges it against the
 // expectation computed from the option point alone, and reports (minimised) violations.
-func (w *worker) handshake(p Point, sk string, reject bool) {
+// via "" = TLSClientAuth + tls.Dial; via "TLSClient" = an HTTPS GET through the client TLSClient returns.
+func (w *worker) handshake(p Point, sk string, reject bool, via string) {
 	m := w.m
-	fs, classes, judged := w.handshakeAttempt(p, sk, reject, 0)
+	fs, classes, judged := w.handshakeAttempt(p, sk, reject, via, 0)
 	if judged {
 		m.Eval(1)
 	}
@@ -157,7 +203,7 @@ func (w *worker) handshake(p Point, sk string, reject bool) {
 			if reject && q.Callback == "" {
 				return false
 			}
-			qfs, _, _ := w.handshakeAttempt(q, sk, reject, 0)
+			qfs, _, _ := w.handshakeAttempt(q, sk, reject, via, 0)
 			for _, qf := range qfs {
 				if qf.sig == sig {
 					detail = qf.detail
@@ -166,7 +212,7 @@ func (w *worker) handshake(p Point, sk string, reject bool) {
 			}
 			return false
 		})
-		m.Violate(sig, detail, &Case{Point: &mp, Server: sk, Reject: reject})
+		m.Violate(sig, detail, &Case{Point: &mp, Server: sk, Reject: reject, Via: via, NameVariant: nameClass(mp.ServerName) != ""})
 	}
 }
 
@@ -181,27 +227,49 @@ func isTimeout(err error) bool {
 
 // handshakeAttempt has no side effects on the monitor: it returns findings, outcome classes and
 // whether the handshake was judged at all.
-func (w *worker) handshakeAttempt(p Point, sk string, reject bool, attempt int) (fs []finding, classes []string, judged bool) {
+func (w *worker) handshakeAttempt(p Point, sk string, reject bool, via string, attempt int) (fs []finding, classes []string, judged bool) {
 	s := w.srv[sk]
 	if s == nil {
 		return []finding{{"bad-replay-case", "unknown listener " + sk}}, nil, false
 	}
-	violate := func(sig, format string, a ...interface{}) { fs = append(fs, finding{sig, fmt.Sprintf(format, a...)}) }
-	class := func(k string) { classes = append(classes, k) }
+	if via != "" && via != "TLSClient" {
+		return []finding{{"bad-replay-case", "unknown handshake route " + via}}, nil, false
+	}
+	sfx, pfx, who := "", "hs", ""
+	if via != "" {
+		sfx, pfx, who = "@"+via, "get", "HTTPS GET through the client of "+via+": "
+	}
+	violate := func(sig, format string, a ...interface{}) {
+		fs = append(fs, finding{sig + sfx, who + fmt.Sprintf(format, a...)})
+	}
+	class := func(k string) { classes = append(classes, pfx+strings.TrimPrefix(k, "hs")) }
 	o, h := build(p, w.mat)
 	if reject {
 		*h.verdict = errRejected
 	}
 	var cfg *tls.Config
+	var hc *http.Client
 	var err error
-	pv, stk := mon.Catch(func() { cfg, err = client.TLSClientAuth(o) })
-	if pv != nil {
-		violate("panic/TLSClientAuth", "TLSClientAuth panicked: %v\n%s", pv, stk)
-		return
-	}
-	if err != nil || cfg == nil {
-		class("hs:no-config")
-		return
+	if via == "" {
+		pv, stk := mon.Catch(func() { cfg, err = client.TLSClientAuth(o) })
+		if pv != nil {
+			violate("panic/TLSClientAuth", "TLSClientAuth panicked: %v\n%s", pv, stk)
+			return
+		}
+		if err != nil || cfg == nil {
+			class("hs:no-config")
+			return
+		}
+	} else {
+		pv, stk := mon.Catch(func() { hc, err = client.TLSClient(o) })
+		if pv != nil {
+			violate("panic/TLSClient", "TLSClient panicked: %v\n%s", pv, stk)
+			return
+		}
+		if err != nil || hc == nil {
+			class("hs:no-config")
+			return
+		}
 	}
 	e := expect(p)
 	if e.idErr || e.rootsErr {
@@ -239,16 +307,33 @@ func (w *worker) handshakeAttempt(p Point, sk string, reject bool, attempt int) 
 	wantOK := why == ""
 
 	before := *h.cbCalls
-	ok, cerr, st, rec, watchdog := w.dial(s, cfg)
+	var (
+		ok       bool
+		cerr     error
+		st       tls.ConnectionState
+		rec      *hsRecord
+		watchdog bool
+	)
+	if via == "" {
+		ok, cerr, st, rec, watchdog = w.dial(s, cfg)
+	} else {
+		ok, cerr, st, rec, watchdog = w.get(s, hc)
+	}
 	if !watchdog && (isTimeout(cerr) || isTimeout(rec.err)) {
 		watchdog = true
 	}
 	if watchdog && attempt == 0 {
-		fs, classes, judged = w.handshakeAttempt(p, sk, reject, 1)
-		return fs, append(classes, "hs-watchdog-retried"), judged
+		fs, classes, judged = w.handshakeAttempt(p, sk, reject, via, 1)
+		return fs, append(classes, pfx+"-watchdog-retried"), judged
 	}
 	if watchdog {
 		class("hs-watchdog")
+		return
+	}
+	if via != "" && !ok && rec.err == nil {
+		// both ends completed the handshake and the failure came afterwards, on the HTTP exchange with the
+		// harness's minimal responder: the statement is about the TLS configuration, this is not judged
+		class("hs:http-exchange-failed-after-handshake(not judged)")
 		return
 	}
 	judged = true
